@@ -43,7 +43,7 @@ RULE = (
 CLASSES = [
     "stale_superset", "stale_subset", "fresh_session_update", "same_session_update", "cache_deleted",
     "rekey_after_cache", "empty_workspace_update", "rekey_collision", "update_rewrites", "update_noop",
-    "created_by_other_session", "rekey_whole_sp_retyped_key", "created_by_clone", "update_cache_cli", "cache_file_as_new_as_workspace",
+    "created_by_other_session", "rekey_whole_sp_retyped_key", "created_by_clone", "update_cache_cli", "cache_file_as_new_as_workspace", "repair_on_healthy_workspace",
 ]
 ASSUMPTIONS = [
     "only existing jobs are opened by id (a cached id of a removed job may legitimately be re-opened)",
@@ -400,6 +400,15 @@ class Sim:
         if self.stage == 1:
             self.stage = 2
 
+    def op_repair(self, op):
+        """repair() on a workspace that is not damaged changes nothing -- whatever the cache file still lists."""
+        self.note_staleness()
+        self.cl.add("repair_on_healthy_workspace")
+        try:
+            (self.signac.Project(self.root) if op.get("fresh") else self.project).repair()
+        except Exception as e:
+            self.mm("repair_raises", "repair() on an undamaged workspace raised %s: %s" % (type(e).__name__, e))
+
     def op_delete_cache(self, op):
         try:
             os.remove(self.cache_fn)
@@ -684,9 +693,10 @@ CLONE = fd(op="clone_in", k=KS)
 UPDATE = st.one_of(fd(op="update_cache"), fd(op="update_cache"), fd(op="update_cache", cli=st.booleans(), touched=st.booleans()))
 RESTART = fd(op="restart")
 DELETE = fd(op="delete_cache")
+REPAIR = fd(op="repair", fresh=st.booleans())
 OBSERVE = fd(op="observe")
 MUT = st.one_of(INIT, INIT, EXT, CLONE, REMOVE, REKEY, REKEY)
-ANY = st.one_of(INIT, INIT, INIT, EXT, CLONE, REMOVE, REMOVE, REKEY, REKEY, REKEY, UPDATE, UPDATE, UPDATE, RESTART, RESTART, RESTART, DELETE, OBSERVE, OBSERVE)
+ANY = st.one_of(INIT, INIT, INIT, EXT, CLONE, REMOVE, REMOVE, REKEY, REKEY, REKEY, UPDATE, UPDATE, UPDATE, RESTART, RESTART, RESTART, DELETE, OBSERVE, OBSERVE, REPAIR)
 
 
 @st.composite
@@ -752,6 +762,10 @@ CONSTRUCTED = [
     {"filters": F6, "ops": [{"op": "init", "k": 0}, {"op": "update_cache"}, {"op": "clone_in", "k": 3}, {"op": "observe"}, {"op": "update_cache"}, {"op": "observe"},
                             {"op": "restart"}, {"op": "clone_in", "k": 5}, {"op": "update_cache"}, {"op": "observe"}]},
     # cache_deleted, empty_workspace_update
+    # repair() on an undamaged workspace whose cache file still lists a removed job
+    {"filters": F6, "ops": [{"op": "init", "k": 0}, {"op": "init", "k": 2}, {"op": "update_cache"}, {"op": "restart"}, {"op": "remove", "k": 0, "by": "sp"},
+                            {"op": "restart"}, {"op": "repair", "fresh": False}, {"op": "observe"}, {"op": "update_cache"}, {"op": "observe"}]},
+    {"filters": F6, "ops": [{"op": "init", "k": 1}, {"op": "update_cache"}, {"op": "remove", "k": 1, "by": "id"}, {"op": "repair", "fresh": True}, {"op": "restart"}, {"op": "observe"}]},
     # the command line front end; a cache file whose timestamp is as new as the workspace directory's
     {"filters": F6, "ops": [{"op": "init", "k": 0}, {"op": "update_cache", "cli": True}, {"op": "init", "k": 3}, {"op": "update_cache", "cli": True, "touched": True}, {"op": "observe"},
                             {"op": "remove", "k": 0, "by": "sp"}, {"op": "restart"}, {"op": "update_cache", "cli": True, "touched": True}, {"op": "observe"}]},
